@@ -5,7 +5,9 @@
    lasio, as  options -> LASFile (with index_initial) -> WOk text m' | WErr.  Every theorem is
    about a successful call `write o m = WOk text m'` and holds FOR ALL oracles
    fmtv ("f % x"), fmt_diff, fmt_pi, fstr (str(float)), fzero (x == 0), numeq (x == y); the
-   only oracle hypothesis is in C16_truth_texts ("%.5f" never prints an empty text).
+   only oracle hypothesis is in C16_truth_texts (the index format never prints an empty text).
+   STRT/STOP/STEP are printed with the format of the index column, col_fmt o 0 = column_fmt[0]
+   or fmt.
 
    Proved at full strength
      frame        C16_data_frame      data, index_initial, ~Other, custom sections unchanged
@@ -18,8 +20,10 @@
                   C16_version_frame   ~Version unchanged without wrap=; with wrap=b it is
                                       set_item "WRAP" (the documented item)
                   C16_state_depends_on_wrap_only   the resulting object is the same for any two
-                                      option sets with the same wrap= (in particular version=
-                                      never reaches memory)
+                                      option sets with the same wrap= and the same index format
+                                      (col_fmt o 0, with which STRT/STOP/STEP are printed)
+                  C16_version_in_memory  two option sets that differ only in version= leave the
+                                      same object: version= never reaches memory
                   C16_vers_untouched  the item found under VERS is the same before and after
                                       (with wrap= given: when WRAP is named at most once, see below)
      determinism  C16_standardize_idem, C16_refresh_idem (update_start_stop_step +
@@ -49,7 +53,7 @@ Open Scope N_scope.
 
 Section C16.
 Variable fmtv : list N -> list N -> list N.
-Variable fmt_diff : list N -> list N -> list N.
+Variable fmt_diff : list N -> list N -> list N -> list N.
 Variable fmt_pi : list N -> list N.
 Variable fstr : list N -> list N.
 Variable fzero : list N -> bool.
@@ -99,7 +103,7 @@ Theorem C16_version_frame : forall o m text m',
 Proof. exact (write_version_frame fmtv fmt_diff fmt_pi fstr fzero numeq). Qed.
 
 Theorem C16_state_depends_on_wrap_only : forall o1 o2 m t1 t2 m1 m2,
-  wo_wrap o1 = wo_wrap o2 ->
+  wo_wrap o1 = wo_wrap o2 -> col_fmt o1 0%nat = col_fmt o2 0%nat ->
   write o1 m = WOk t1 m1 -> write o2 m = WOk t2 m2 -> m1 = m2.
 Proof. exact (write_state_wrap_only fmtv fmt_diff fmt_pi fstr fzero numeq). Qed.
 
@@ -117,9 +121,9 @@ Theorem C16_standardize_idem : forall v u,
   standardize fzero (standardize fzero v u) u = standardize fzero v u.
 Proof. exact (standardize_idem fzero). Qed.
 
-Theorem C16_refresh_idem : forall m l,
-  refresh_sss fmtv fmt_diff numeq m = Some l ->
-  refresh_sss fmtv fmt_diff numeq (mkmlas l (m_index_initial m)) = Some l.
+Theorem C16_refresh_idem : forall f m l,
+  refresh_sss fmtv fmt_diff numeq f m = Some l ->
+  refresh_sss fmtv fmt_diff numeq f (mkmlas l (m_index_initial m)) = Some l.
 Proof. exact (refresh_idem fmtv fmt_diff numeq). Qed.
 
 (* `render` (Proofs/WriteIdemProofs.v) computes the text from the options and the LASFile left
@@ -176,8 +180,8 @@ Theorem C16_units_aligned : forall o m text m',
     (forall c0 rest, s_items (l_curves (m_las m')) = c0 :: rest -> i_unit c0 = u).
 Proof. exact (write_units_aligned fmtv fmt_diff fmt_pi fstr fzero numeq). Qed.
 
-(* first sample a, last sample z: STRT = "%.5f" % a, STOP = "%.5f" % z,
-   STEP = step_of index = "%.5f" % (second - first) when there are two numeric samples and the
+(* first sample a, last sample z, f = col_fmt o 0: STRT = f % a, STOP = f % z,
+   STEP = step_of f index = f % (second - first) when there are two numeric samples and the
    STRT and STOP texts differ, else None; all three then pass through standardize (which only
    matters for an empty text / None: -> 0 with a unit, "" without) *)
 Theorem C16_truth : forall o m text m' a rest z rr,
@@ -190,27 +194,27 @@ Theorem C16_truth : forall o m text m' a rest z rr,
     sect_find trw (s2l "STRT") (s_items (l_well (m_las m'))) = Some s /\
     sect_find trw (s2l "STOP") (s_items (l_well (m_las m'))) = Some p /\
     sect_find trw (s2l "STEP") (s_items (l_well (m_las m'))) = Some e /\
-    i_value s = standardize fzero (VStr (fmtv (s2l "%.5f") a)) u /\
-    i_value p = standardize fzero (VStr (fmtv (s2l "%.5f") z)) u /\
-    i_value e = standardize fzero (step_of fmtv fmt_diff (index_of (m_las m))) u /\
+    i_value s = standardize fzero (VStr (fmtv (col_fmt o 0%nat) a)) u /\
+    i_value p = standardize fzero (VStr (fmtv (col_fmt o 0%nat) z)) u /\
+    i_value e = standardize fzero (step_of fmtv fmt_diff (col_fmt o 0%nat) (index_of (m_las m))) u /\
     i_unit s = u /\ i_unit p = u /\ i_unit e = u.
 Proof. exact (write_truth fmtv fmt_diff fmt_pi fstr fzero numeq). Qed.
 
 Theorem C16_truth_texts : forall o m text m' a rest z rr,
-  (forall t, fmtv (s2l "%.5f") t <> []) ->
+  (forall t, fmtv (col_fmt o 0%nat) t <> []) ->
   write o m = WOk text m' ->
   need_of numeq m = Some true ->
   index_of (m_las m) = CNum a :: rest -> rev (index_of (m_las m)) = CNum z :: rr ->
   let trw := s_transforms (l_well (m_las m)) in
   exists s p e,
-    sect_find trw (s2l "STRT") (s_items (l_well (m_las m'))) = Some s /\ i_value s = VStr (fmtv (s2l "%.5f") a) /\
-    sect_find trw (s2l "STOP") (s_items (l_well (m_las m'))) = Some p /\ i_value p = VStr (fmtv (s2l "%.5f") z) /\
+    sect_find trw (s2l "STRT") (s_items (l_well (m_las m'))) = Some s /\ i_value s = VStr (fmtv (col_fmt o 0%nat) a) /\
+    sect_find trw (s2l "STOP") (s_items (l_well (m_las m'))) = Some p /\ i_value p = VStr (fmtv (col_fmt o 0%nat) z) /\
     sect_find trw (s2l "STEP") (s_items (l_well (m_las m'))) = Some e /\
     (forall b rest', rest = CNum b :: rest' ->
-       str_eqb (fmtv (s2l "%.5f") a) (fmtv (s2l "%.5f") z) = false -> fmt_diff b a <> [] ->
-       i_value e = VStr (fmt_diff b a)) /\
+       str_eqb (fmtv (col_fmt o 0%nat) a) (fmtv (col_fmt o 0%nat) z) = false -> fmt_diff (col_fmt o 0%nat) b a <> [] ->
+       i_value e = VStr (fmt_diff (col_fmt o 0%nat) b a)) /\
     (rest = [] \/ (exists b rest', rest = CNum b :: rest' /\
-                   str_eqb (fmtv (s2l "%.5f") a) (fmtv (s2l "%.5f") z) = true) ->
+                   str_eqb (fmtv (col_fmt o 0%nat) a) (fmtv (col_fmt o 0%nat) z) = true) ->
        i_value e = standardize fzero VNone (aligned_unit (m_las m))).
 Proof. exact (write_truth_texts fmtv fmt_diff fmt_pi fstr fzero numeq). Qed.
 
@@ -231,16 +235,16 @@ Theorem C16_header_frame : forall o m text m',
   end.
 Proof. exact (write_header_frame fmtv fmt_diff fmt_pi fstr fzero numeq). Qed.
 
-Theorem C16_version_in_memory : forall o1 o2 m t1 t2 m1 m2,
-  wo_wrap o1 = wo_wrap o2 ->
-  write o1 m = WOk t1 m1 -> write o2 m = WOk t2 m2 -> m1 = m2.
-Proof. exact (write_state_wrap_only fmtv fmt_diff fmt_pi fstr fzero numeq). Qed.
+(* set_wo_version o ver: the option set o with version= replaced by ver *)
+Theorem C16_version_in_memory : forall o ver m t1 t2 m1 m2,
+  write o m = WOk t1 m1 -> write (set_wo_version o ver) m = WOk t2 m2 -> m1 = m2.
+Proof. exact (write_version_in_memory fmtv fmt_diff fmt_pi fstr fzero numeq). Qed.
 
 End C16.
 
 (* ---- non-vacuity: a small LASFile and toy oracles ------------------------------------------------ *)
 Definition t_fmtv (f t : list N) : list N := t.
-Definition t_fmt_diff (b a : list N) : list N := s2l "1.00000".
+Definition t_fmt_diff (f b a : list N) : list N := s2l "1.00000".
 Definition t_fmt_pi (f : list N) : list N := s2l "3.14159".
 Definition t_fstr (t : list N) : list N := t.
 Definition t_fzero (t : list N) : bool := str_eqb t (s2l "0.0").
